@@ -206,6 +206,12 @@ def gen(streams, tier, i):
         kind, new = corrupt(fr, lines[j])
         lines[j] = new
         faults.append(kind)
+    longname = None
+    if fr.random() < 0.03 and docv in ("gfa1", "gfa2"):
+        # a (valid) segment name that ends in an asterisk and more digits than int() converts
+        longname = fr.choice(["zq", "1", "a*2"]) + "*" + fr.choice(["1", "7", "0"]) * fr.choice([4301, 5000])
+        lines.append("S\t%s\t*" % longname if docv == "gfa1" else "S\t%s\t5\t*" % longname)
+        faults.append("longname")
     dialect = cfg.choice(["standard"] * 5 + ["rgfa"])
     entry = cfg.choice(["str", "str_nl", "list", "file_lf", "file_crlf", "file_nonl", "file_torn",
                         "incremental", "file_progress", "lines", "script", "file_bytes", "line_lists"])
@@ -235,6 +241,9 @@ def gen(streams, tier, i):
         val = hr.choice(["x", "", "*", "1", "-1", "1.5", "[]", "[1,2]", "{\"a\":1}", "1$", "+", "12M", "a b",
                          "\t", "c,1,300", "f,1.5,x", "ZZ", "0A", "A+", "A+,B-", "1,2,3", "$", "é"])
         ops.append({"op": "api", "call": call, "arg": arg, "val": val, "li": hr.randrange(50)})
+    if longname is not None:
+        for call in ("multiply", "seg_component", "rm"):
+            ops.append({"op": "api", "call": call, "arg": longname, "val": "x", "li": 1 + 3 * hr.randrange(12)})
     return {"cfg": {"vlevel": vlevel, "version": version, "docv": docv, "entry": entry,
                     "faults": faults, "dialect": dialect}, "ops": ops}
 
@@ -436,7 +445,11 @@ def api(g, cx, op, st):
     elif c == "linear_paths":
         o = cx.call("gfa.linear_paths()", g.linear_paths)
     elif c == "multiply":
-        o = cx.call("gfa.multiply(%r,%d)" % (a, op["li"] % 4), g.multiply, a, op["li"] % 4)
+        sn = core.call(lambda: list(g.segment_names))
+        if sn.ok and sn.value and op["li"] % 3 != 1:
+            # (the name of a segment of the document, whatever it looks like)
+            a = sn.value[op["li"] % len(sn.value)]
+        o = cx.call("gfa.multiply(%r,%d)" % (a[:40], op["li"] % 4), g.multiply, a, op["li"] % 4)
     elif c == "merge":
         o = cx.call("gfa.merge_linear_paths()", g.merge_linear_paths)
     elif c == "remove_small":
@@ -582,6 +595,11 @@ def api(g, cx, op, st):
             o = cx.call("path.rm_last_item()", gr.rm_last_item)
         cx.call("gfa.validate() after group edit", g.validate)
         cx.call("str(gfa) after group edit", str, g)
+        # every group (the edited one may be nested in others) still answers, or reports a gfapy error
+        for x in gs:
+            if x.is_connected():
+                cx.call("%s after group edit" % ("captured_path" if x.record_type == "O" else "induced_set"),
+                        getattr, x, "captured_path" if x.record_type == "O" else "induced_set")
     elif c == "l.edge_setter":
         es = [x for x in lines if _rt(x) in ("E", "L", "C")]
         if not es:
